@@ -14,16 +14,16 @@ package mqtt
 //@   props C19
 //@   pure
 //@   ensures[C19] err == nil ==> result == nil
-//@   ensures[C19] err == io.EOF ==> result == io.EOF
-//@   ensures[C19] err != nil && err != io.EOF ==> asError(result) != nil && fresh(asError(result)) && asError(result).Err == err && asError(result).Failure == failure
+//@   ensures[C01,C02,C03,C05,C06,C07,C09,C11,C12,C13,C16,C18,C19] err == io.EOF ==> result == io.EOF
+//@   ensures[C01,C02,C03,C04,C05,C06,C07,C09,C11,C12,C13,C14,C16,C17,C18,C19] err != nil && err != io.EOF ==> asError(result) != nil && fresh(asError(result)) && asError(result).Err == err && asError(result).Failure == failure
 
 //@ func wrapError
 //@   mode int
 //@   props C19
 //@   pure
 //@   ensures[C19] err == nil ==> result == nil
-//@   ensures[C19] err == io.EOF ==> result == io.EOF
-//@   ensures[C19] err != nil && err != io.EOF ==> asError(result) != nil && fresh(asError(result)) && asError(result).Err == err && asError(result).Failure == failure
+//@   ensures[C01,C02,C03,C05,C06,C07,C09,C11,C12,C13,C16,C19] err == io.EOF ==> result == io.EOF
+//@   ensures[C01,C02,C03,C04,C05,C06,C07,C09,C11,C12,C13,C14,C16,C17,C19] err != nil && err != io.EOF ==> asError(result) != nil && fresh(asError(result)) && asError(result).Err == err && asError(result).Failure == failure
 
 //@ func wrapErrorf
 //@   mode int
@@ -31,7 +31,7 @@ package mqtt
 //@   pure
 //@   ensures[C19] err == nil ==> result == nil
 //@   ensures[C19] err == io.EOF ==> result == io.EOF
-//@   ensures[C19] err != nil && err != io.EOF ==> asError(result) != nil && fresh(asError(result)) && asError(result).Err == err
+//@   ensures[C01,C03,C04,C05,C06,C07,C09,C11,C12,C13,C16,C19] err != nil && err != io.EOF ==> asError(result) != nil && fresh(asError(result)) && asError(result).Err == err
 
 // ---- (*Error) accessors (C19) ----
 
